@@ -68,8 +68,8 @@ def _one(ctx, i, rep=None):
     text = RP.pr_grammar(g)
     cfg = P.random_cfg(r)
     try:
-        mm0 = metamodel_from_str(text, **cfg)
-        mm1 = metamodel_from_str(text, memoization=True, **cfg)
+        mm0 = P.make_mm(text, **cfg)
+        mm1 = P.make_mm(text, memoization=True, **cfg)
     except TextXError as e:
         ctx.violation(None, 'generated grammar rejected: %s' % str(e)[:100], {'grammar': text}, rep)
         return
